@@ -586,7 +586,7 @@ def check_case_static(ctx, batch, env, case, label):
 
 def part1(ctx, env):
     batch = Batch(ctx)
-    limit = ctx.scale(70, 3000)
+    limit = ctx.scale(70, 800)
     for name, progs in template_programs():
         case = Case(env, progs)
         check_case_static(ctx, batch, env, case, name)
@@ -612,18 +612,18 @@ def part1(ctx, env):
         check_runs(ctx, batch, env, case, [tr], 'witness-old', old=True)
         for name, progs in template_programs()[:4]:
             c2 = Case(env, progs)
-            check_runs(ctx, batch, env, c2, list(explore(env, progs, ctx.scale(60, 600))), 'old-emulation:' + name, old=True)
+            check_runs(ctx, batch, env, c2, list(explore(env, progs, ctx.scale(60, 250))), 'old-emulation:' + name, old=True)
     finally:
         env.del_mode = False
     # random programs, random schedules
-    n = ctx.scale(60, 1200)
+    n = ctx.scale(60, 400)
     for i in range(n):
         progs = gen_programs(env, ctx.rng)
         case = Case(env, progs)
         if case.problems and any('solo request failed' in p for p in case.problems):
             ctx.count('random:solo-failure-skipped'); continue
         check_case_static(ctx, batch, env, case, 'random')
-        runs = [run_real(env, progs, random_chooser(ctx.rng, ctx.rng.choice([0.0, 0.3, 0.6]))) for _ in range(ctx.scale(4, 10))]
+        runs = [run_real(env, progs, random_chooser(ctx.rng, ctx.rng.choice([0.0, 0.3, 0.6]))) for _ in range(ctx.scale(4, 8))]
         check_runs(ctx, batch, env, case, runs, 'random')
     batch.flush()
 
@@ -718,7 +718,7 @@ def part2(ctx, env):
         saved_clear(); clear_all()
     env.clear_caches = clear_both
     try:
-        n = ctx.scale(40, 600)
+        n = ctx.scale(40, 250)
         for i in range(n):
             rng = ctx.rng
             nthreads = rng.choice([2, 2, 3])
@@ -734,7 +734,7 @@ def part2(ctx, env):
             for s, d in zip(solo, desc):
                 for r, dd in zip(s, d):
                     if r[0] != 'ok': ctx.count('part2:solo-error:%s:%s' % (dd[0], r[0]))
-            for _ in range(ctx.scale(5, 12)):
+            for _ in range(ctx.scale(5, 8)):
                 tr = run_real(env, progs, random_chooser(rng, rng.choice([0.0, 0.5])), yield_at=tuple(names))
                 inp = {'ops': desc, 'picks': tr['picks']}
                 ctx.case(inp, nontrivial=len(tr['picks']) > 3, kind='all-caches')
